@@ -28,6 +28,7 @@ theorem C19_status_matches (s : Setup) (f : Fault) :
     cases h : s.bufResp <;> simp [outcome, clientStatus, h]
   | ok st n => cases h : overLimit s n <;> simp [outcome, clientStatus, h]
   | early st n => cases h : overLimit s n <;> simp [outcome, clientStatus, h]
+  | trailer => cases h : overLimit s 5 <;> simp [outcome, clientStatus, h]
   | _ => simp [outcome, clientStatus, classify]
 
 /-- A client that goes away is logged 499 with no bytes; an unrouted request 404 with no
